@@ -6,7 +6,7 @@ CHECKS = [
     {
         "property_id": "C01", "engine": "symx", "category": "model_checking",
         "technique": "bounded symbolic execution of the real source + z3 (inductive step of CompiledCircuit.add from an arbitrary symbolic pre-state; symbolic programs of public calls)",
-        "text": "For every value of reflectivity, loss, phases, unitary-block entries and of the accumulated matrix, one call of the real CompiledCircuit.add produces E(component) x M (all component kinds, all mode placements up to the bound); every embedding is unitary; 2-3-call programs through the public Circuit API give U = ordered product, U leading block of U_full, U_full unitary with one extra mode per loss element; range validation accepts exactly [0,1]. Bounded in mode count and program length; the induction over program length is stated, not discharged.",
+        "text": "For every value of reflectivity, loss, phases, unitary-block entries and of the accumulated matrix, one call of the real CompiledCircuit.add produces E(component) x M (all component kinds, all mode placements up to the bound); every embedding is unitary; 2-3-call programs through the public Circuit API give U = ordered product, U leading block of U_full, U_full unitary with one extra mode per loss element (also for a loss given as a Parameter of value 0); range validation accepts exactly [0,1]. Bounded in mode count and program length; the induction over program length is stated, not discharged.",
         "design_ref": "DESIGN.md section 4 C01", "note": SYMX_NOTE,
     },
 ]
@@ -18,7 +18,7 @@ CHECKS += [
     {
         "property_id": "C03", "engine": "symx+crosshair", "category": "model_checking",
         "technique": "bounded symbolic execution of Simulator.simulate on a fully symbolic unitary block + z3 (polynomial identities against a permutation-sum permanent); CrossHair (z3) for the rejection of malformed input/output states",
-        "text": "For every complex value of the entries of the circuit's unitary block and every loss value, every amplitude returned by the real Simulator (array, pair index) equals perm(U_full[rows,cols])/sqrt(prod n!) with herald photons inserted on herald modes (in != out allowed) and vacuum on loss modes, for all inputs/outputs within the photon bound; lossless bs/ps layouts give unit vectors for all parameter values; 4 CrossHair conditions: malformed states (negative/non-integer occupations, wrong length, mixed photon numbers) are rejected.",
+        "text": "For every complex value of the entries of the circuit's unitary block and every loss value, every amplitude returned by the real Simulator (array, pair index) equals perm(U_full[rows,cols])/sqrt(prod n!) with herald photons inserted on herald modes (in != out allowed) and vacuum on loss modes, for all inputs/outputs within the photon bound, also for lists that repeat a state and for circuits whose modes are all heralded; lossless bs/ps layouts give unit vectors for all parameter values; 4 CrossHair conditions: malformed states (negative/non-integer occupations, wrong length, mixed photon numbers) are rejected.",
         "design_ref": "DESIGN.md section 4 C03", "note": SYMX_NOTE + " thewalrus.perm is stubbed by a definitional permanent.",
     },
     {
@@ -57,7 +57,7 @@ CHECKS += [
     {
         "property_id": "C17", "engine": "symx", "category": "model_checking",
         "technique": "bounded symbolic execution of SimulationResult/SamplingResult with symbolic values + z3 (linear identities over the returned object's own state lists)",
-        "text": "For arbitrary real (complex for amplitudes) result values and output-state sets chosen so that images collide in every pattern: pair, nested and array indexing agree in the order of the object's own lists; threshold/parity mappings (plain, inverted, and a second application of any mapping) send every output to its image, add coinciding weights, keep row totals, leave the original untouched; amplitude-typed results are refused; SamplingResult returns the counts it was built from and conserves totals.",
+        "text": "For arbitrary real (complex for amplitudes) result values and output-state sets chosen so that images collide in every pattern (the zero-mode state included): pair, nested and array indexing agree in the order of the object's own lists; threshold/parity mappings (plain, inverted, and a second application of any mapping) send every output to its image, add coinciding weights, keep row totals, leave the original untouched; amplitude-typed results are refused; SamplingResult returns the counts it was built from and conserves totals.",
         "design_ref": "DESIGN.md section 4 C17", "note": SYMX_NOTE,
     },
 ]
@@ -75,7 +75,7 @@ CHECKS += [
     {
         "property_id": "C02", "engine": "symx", "category": "model_checking",
         "technique": "bounded symbolic execution of Circuit.add on circuits carrying fully symbolic blocks + z3 (one-step wiring identity relative to the library's own U_full of sub-circuit and parent; disjunction over ancilla relabellings)",
-        "text": "For all complex entries of the blocks of parent, earlier sub-circuits and the added circuit: every accepted add gives U_full_after = W(U_full_sub) x lift(U_full_before) for some placement of the new ancillas, where W connects the j-th non-herald input/output to user mode m+j and each herald to a private ancilla with its photon number on input and output; mode counts, input size and herald dictionaries are as stated; earlier ancillas are untouched; oversize additions are rejected and accepted ones compile; later user-mode addressing skips ancillas. All herald in/out tuples, both declaration orders, both group flags, lossy and nested sub-circuits within the size bounds. Nesting depth follows by induction over add (stated).",
+        "text": "For all complex entries of the blocks of parent, earlier sub-circuits and the added circuit: every accepted add gives U_full_after = W(U_full_sub) x lift(U_full_before) for some placement of the new ancillas, where W connects the j-th non-herald input/output to user mode m+j and each herald to a private ancilla with its photon number on input and output; mode counts, input size and herald dictionaries are as stated; earlier ancillas are untouched; oversize additions are rejected and accepted ones compile; later user-mode addressing skips ancillas. All herald in/out tuples, both declaration orders, both group flags, lossy and nested sub-circuits (inner heralded circuit added before or after the sub-circuit's own heralds were declared) within the size bounds. Nesting depth follows by induction over add (stated).",
         "design_ref": "DESIGN.md section 4 C02", "note": SYMX_NOTE,
     },
 ]
@@ -84,7 +84,7 @@ CHECKS += [
     {
         "property_id": "C04", "engine": "symx", "category": "model_checking",
         "technique": "bounded symbolic execution of SLOS, both branches of full_probability_distribution, pdist_calc and Sampler.probability_distribution with symbolic circuit parameters; every 1e-9 threshold comparison forks; z3 decides feasibility and the inequalities (monomial-linearised QF_LRA relaxation first, then nlsat)",
-        "text": "For all reflectivities, phases and loss values on the listed shapes and all inputs within the photon bound, on every feasible threshold path: the SLOS kernel returns the definitional amplitudes on an arbitrary matrix; each backend's non-vacuum entries equal the loss-marginalised probability minus exactly the sub-threshold terms, are non-negative and never exceed the exact value; the sampler's distribution (real pdist_calc, also with arbitrary stubbed sub-distributions) sums to one within the truncation slack, keeps the full vacuum weight, and permanent and slos agree within that slack.",
+        "text": "For all reflectivities, phases and loss values on the listed shapes and all inputs within the photon bound (also with every photon on a heralded mode), on every feasible threshold path: the SLOS kernel returns the definitional amplitudes on an arbitrary matrix; each backend's non-vacuum entries equal the loss-marginalised probability minus exactly the sub-threshold terms, are non-negative and never exceed the exact value; the sampler's distribution (real pdist_calc, also with arbitrary stubbed sub-distributions) sums to one within the truncation slack, keeps the full vacuum weight, and permanent and slos agree within that slack.",
         "design_ref": "DESIGN.md section 4 C04", "note": SYMX_NOTE + " Solver 'unknown' on a branch is treated as feasible (over-approximation).",
     },
 ]
@@ -93,7 +93,7 @@ CHECKS += [
     {
         "property_id": "C05", "engine": "symx", "category": "model_checking",
         "technique": "bounded symbolic execution of Analyzer, QuickSampler and Simulator with symbolic circuit parameters + z3 (all compared with one loss-marginalised Fock-amplitude reference; division-free error-rate and renormalisation identities)",
-        "text": "For all reflectivities, phases and loss values on the listed shapes, heralds with 0/1 photons (in != out allowed), 1-2 equal-photon inputs and four kinds of post-selection: the analyzer's outputs are exactly the post-selected heralded outputs, its entries equal the loss-marginalised heralded probabilities, performance is the mean accepted total and error rate one minus the accepted-and-expected fraction; the quick sampler's distribution is the reference conditioned on heralds, post-selection, no loss (and <=1 photon per mode for threshold detection) renormalised, on every threshold path; squared simulator amplitudes equal analyzer probabilities; none of the objects raises on a circuit the others accept.",
+        "text": "For all reflectivities, phases and loss values on the listed shapes, heralds with 0/1 photons (in != out allowed; inputs whose photons all sit on heralded modes included), 1-2 equal-photon inputs with distinct expected outputs given in either order, and four kinds of post-selection: the analyzer's outputs are exactly the post-selected heralded outputs, its entries equal the loss-marginalised heralded probabilities, performance is the mean accepted total and error rate one minus the accepted-and-expected fraction; the quick sampler's distribution is the reference conditioned on heralds, post-selection, no loss (and <=1 photon per mode for threshold detection) renormalised, on every threshold path; squared simulator amplitudes equal analyzer probabilities; none of the objects raises on a circuit the others accept.",
         "design_ref": "DESIGN.md section 4 C05", "note": SYMX_NOTE,
     },
 ]
@@ -111,7 +111,7 @@ CHECKS += [
     {
         "property_id": "C07", "engine": "symx", "category": "model_checking",
         "technique": "probabilistic symbolic execution of the real sampling code: RNG calls are nondeterministic stubs with exact measures, all decision vectors are enumerated and their measures summed as polynomials in (efficiency, p_dark); z3 decides regime forks and residual identities; same-seed reproducibility as a two-run relational obligation",
-        "text": "For all efficiency and p_dark in [0,1] and both detector modes: the implemented detector law (sum of path measures of _get_output) equals thinning per photon, then at most one dark count per mode, then thresholding, for every input within the bound; sample_N_inputs draws N from the distribution and the law of its accepted outputs equals the detected, heralded, post-selected law with herald modes removed; sample_N_outputs draws exactly N from the renormalised conditional distribution and refuses dark counts; sample() returns each state with its probability; with the same seed no consumed randomness lies outside the seeded generators. Known finding: Sampler.sample() does not apply heralds.",
+        "text": "For all efficiency and p_dark in [0,1] and both detector modes: the implemented detector law (sum of path measures of _get_output) equals thinning per photon, then at most one dark count per mode, then thresholding, for every input within the bound; sample_N_inputs draws N from the distribution and the law of its accepted outputs equals the detected, heralded, post-selected law with herald modes removed; sample_N_outputs draws exactly N from the renormalised conditional distribution and refuses dark counts; sample() returns each state with its probability; with the same seed (int, 0, numpy integer, integral float) no consumed randomness lies outside the seeded generators and every sampling method accepts the seed. Known finding: Sampler.sample() does not apply heralds.",
         "design_ref": "DESIGN.md section 4 C07", "note": SYMX_NOTE + " The RNG libraries are trusted (A-EXT); convergence of empirical frequencies is replaced by equality of the generating law.",
     },
 ]
@@ -120,7 +120,7 @@ CHECKS += [
     {
         "property_id": "C11", "engine": "symx", "category": "model_checking",
         "technique": "bounded relational symbolic execution: a long-lived Sampler/QuickSampler after every sequence of reconfigurations vs a fresh object with the same settings, symbolic old/new values so that z3 decides both sides of every cache comparison",
-        "text": "For all symbolic parameter values (old and new, equal or different) and every sequence of 2 reconfigurations out of 9 with or without an intermediate read: the long-lived object's distribution equals the fresh object's (same support, same values, same error if any), sampling after a change draws from the current distribution, sample() works without a prior read, and an Analyzer result carries an error rate only when that call was given expected outputs.",
+        "text": "For all symbolic parameter values (old and new, equal or different) and every sequence of 2 reconfigurations out of 11 (incl. a moved herald and a PostSelection object edited in place) with or without an intermediate read: the long-lived object's distribution equals the fresh object's (same support, same values, same error if any), sampling after a change draws from the current distribution, sample() works without a prior read, an Analyzer result carries an error rate only when that call was given expected outputs, and a long-lived Analyzer gives what a fresh one gives after 1-2 of 7 reconfigurations (circuit reassigned with other heralds, loss or components added in place, post-selection reassigned or edited in place, parameter set).",
         "design_ref": "DESIGN.md section 4 C11", "note": SYMX_NOTE,
     },
 ]
@@ -156,7 +156,7 @@ CHECKS += [
     {
         "property_id": "C12", "engine": "symx+crosshair", "category": "model_checking",
         "technique": "symbolic execution of the real converter and gate library on concretely built qiskit circuits with rotation angles abstracted to trigonometric atoms + z3 (division-free proportionality of accepted amplitudes to a bit-tuple reference unitary); CrossHair for the qubit-adjacency arithmetic",
-        "text": "For every program in the bound (all pairs of operations with a multi-qubit gate on 2 qubits, pairs of multi-qubit gates on 3 qubits incl. non-adjacent and all ccx target positions, both modes) and every rotation angle: the converter either raises or returns a lossless circuit whose accepted dual-rail amplitudes are pairwise proportional to the qiskit unitary's entries with a non-zero scalar, vanish outside the qubit subspace, and whose rules are one photon per qubit pair; convert_two_qubits_to_adjacent returns adjacent, order-preserving positions reached by its swaps for all qubit pairs below 8.",
+        "text": "For every program in the bound (all pairs of operations with a multi-qubit gate on 2 qubits, pairs of multi-qubit gates on 3 qubits incl. non-adjacent and all ccx target positions, entangling-swap-entangling triples, gates three qubits apart on 4 qubits, circuits made of several quantum registers, both modes) and every rotation angle: the converter returns within the watchdog time and either raises or returns a lossless circuit whose accepted dual-rail amplitudes are pairwise proportional to the qiskit unitary's entries with a non-zero scalar, vanish outside the qubit subspace, and whose rules are one photon per qubit pair; convert_two_qubits_to_adjacent returns adjacent, order-preserving positions reached by its swaps for all qubit pairs below 8.",
         "design_ref": "DESIGN.md section 4 C12", "note": SYMX_NOTE + " The bit-tuple reference is validated against qiskit.quantum_info.Operator in every concrete validation run. Programs above the photon bound rest on C02 + C13 + the stated composition lemma.",
     },
 ]
